@@ -159,6 +159,10 @@ def redefinition_histories(ctx):
         [("def m9 = fn(l) length(l) + 1", None), ("m9([1, 2])", "3"), ("m9([1, 2])", "3"), ("def length(l) 10", None), ("m9([1, 2])", "11"), ("[m9([]) for i in range(2)]", "[11, 11]")],
         [("def o9 = <*go = fn(self, x) sign(x)*>", None), ("o9->go(-5)", "-1"), ("def sign(x) 'redefined'", None), ("o9->go(-5)", "'redefined'")],
         [("def c9(l) [abs(x) for x in l]", None), ("c9([-1, -2])", "[1, 2]"), ("def abs(x) 0", None), ("c9([-1, -2])", "[0, 0]")],
+        # an assignment made inside a function by a later call reaches the top-level variable, also when the function used that name as a
+        # loop variable before the assignment
+        [("def gv = 1", None), ("def f9() do for gv in [5, 6] do 0 end; gv = 99; 0 end", None), ("f9()", "0"), ("gv", "99"), ("gv = 3", None), ("f9(); gv", "99")],
+        [("def gw = 1", None), ("def f8() do do for gw in [5] do error 'x' end catch all 0 end; gw = gw + 1; gw end", None), ("f8()", "2"), ("f8()", "3"), ("gw", "3")],
     ]
     for legacy in (True, False):
         for h in hs:
